@@ -78,7 +78,8 @@ SCHED_CORPUS = [
 def _gen_sched(rng):
     """driver side: rings whose delays are split over several delay adapters per link"""
     r = rng.random()
-    case = sc.gen_ring(rng, sufficient=True) if r < 0.5 else (sc.gen_ring_staggered(rng) if r < 0.75 else sc.gen_pull_ring(rng))
+    case = (sc.gen_ring(rng, sufficient=True) if r < 0.4 else sc.gen_ring_staggered(rng) if r < 0.55 else
+            sc.gen_pull_ring(rng) if r < 0.7 else sc.gen_ring_mixed(rng) if r < 0.85 else sc.gen_lookahead(rng))
     return {"sched": case}
 
 
